@@ -57,15 +57,14 @@ fn any_step(steps: &[Step], f: &dyn Fn(&Step) -> bool) -> bool {
 pub fn trigger_holds(trigger: &str, sc: &Scenario) -> bool {
     match trigger {
         "always" => true,
-        "iterate_body_repartitions" => sc.steps.iter().any(|s| match s {
-            Step::Loop(_, l) if l.iterate => l.body.iter().any(|b| {
-                matches!(
-                    b,
-                    Step::Un(_, UnOp::Shuffle) | Step::Un(_, UnOp::Gb(..)) | Step::Un(_, UnOp::Gl(..)) | Step::Un(_, UnOp::Repl(_)) | Step::Un(_, UnOp::Win(..)) | Step::Bin(..)
-                )
-            }),
-            _ => false,
-        }),
+        "iterate_body_repartitions" => iterate_repartitions(&sc.steps),
+        "loop_on_more_than_16_remote_replicas" => {
+            let total: u64 = match &sc.layout {
+                Layout::Remote(h) if h.len() >= 2 => h.iter().sum(),
+                _ => 0,
+            };
+            total > 16 && any_step(&sc.steps, &|s| matches!(s, Step::Loop(..)))
+        }
         "consumer_replica_without_producer" => {
             // renoir semantics: the block after replication(r) has exactly requirement r; the
             // producer's requirement is tracked along the top-level plan
@@ -140,5 +139,28 @@ pub fn attribute<'a>(k: &'a KnownFile, prop: &str, class: &str, sc: Option<&Scen
             f.property == prop && class.starts_with(&f.class)
         };
         f.status == "known" && class_ok && sc.map(|s| trigger_holds(&f.trigger, s)).unwrap_or(false)
+    })
+}
+
+/// some `iterate` loop, at any nesting depth, has a block boundary inside its body
+fn iterate_repartitions(steps: &[Step]) -> bool {
+    steps.iter().any(|s| match s {
+        Step::Loop(_, l) => {
+            (l.iterate
+                && l.body.iter().any(|b| {
+                    matches!(
+                        b,
+                        Step::Un(_, UnOp::Shuffle)
+                            | Step::Un(_, UnOp::Gb(..))
+                            | Step::Un(_, UnOp::Gl(..))
+                            | Step::Un(_, UnOp::Repl(_))
+                            | Step::Un(_, UnOp::Win(..))
+                            | Step::Bin(..)
+                            | Step::Loop(..)
+                    )
+                }))
+                || iterate_repartitions(&l.body)
+        }
+        _ => false,
     })
 }
